@@ -95,6 +95,7 @@ class Real(object):
             else:
                 cells = [mp.pixels[x + mp.width * z] for z in range(G) for x in range(G)]
                 stray += sum(1 for i, v in enumerate(mp.pixels) if v and not (i % mp.width < G and i // mp.width < G))
+                stray += abs(len(mp.pixels) - mp.width * mp.height)        # the map keeps its size
                 maps.append({'present': True, 'scale': mp.scale, 'tracking': bool(mp.is_tracking_position),
                              'locked': bool(mp.is_locked), 'icons': [ic.type for ic in mp.icons], 'cells': cells})
         pos = {k: getattr(self.pos, k) for k in ('x', 'y', 'z', 'yaw', 'pitch')}
@@ -116,6 +117,8 @@ def random_packet(rng, n_uuids, n_maps, G):
             h = rng.randint(1, 3)
             ox, oz = rng.randint(0, G - w), rng.randint(0, G - h)      # the update stays inside the tracked window
             px = [rng.randint(1, 255) for _ in range(w * h)]
+            if rng.random() < 0.25:
+                px = px[:len(px) - rng.randrange(w)]        # a last row that is not full: the pixels given, nothing else
             # keep the update inside the 128 x 128 map
             return ['map', rng.randint(1, n_maps), rng.randint(0, 4), rng.random() < 0.5, rng.random() < 0.5,
                     [rng.randint(0, 9) for _ in range(rng.randint(0, 2))], w, ox, oz, px]
@@ -249,11 +252,11 @@ def value_observations(rng, n):
         if j % 5 == 4 and ia == ib:
             fb = [float(x) if k % 2 == 0 else x for k, x in enumerate(fa)]
         (A, ta, na, va), (B, tb, nb, vb) = makers[ia](fa), makers[ib](fb)
-        if j % 7 == 6 and 'properties' in na:
+        if j % 7 == 6 and 'properties' in na and 'properties' in nb:
             ka = na.index('properties')
             A.properties, B.properties = [fa[0], (fa[1], 2)], [fb[0], (fb[1], 2.0)]
             va, vb = list(va), list(vb)
-            va[ka], vb[ka] = A.properties, B.properties
+            va[ka], vb[nb.index('properties')] = A.properties, B.properties
         same = type(A) is type(B)
         fields = ta == tb and va == vb
         try:
